@@ -350,9 +350,9 @@ func decoderTotality(id, tier string, seed int64, col *exec.RawCollector, ev *Ev
 	h32 := bytes.Repeat([]byte{0xab}, 32)
 	valid = append(valid,
 		[]byte{0, 2, 6, 1, 'k', 1, 'v'}, // legacy leaf: height 0, size 1, version 3
-		append(append([]byte{2, 4, 6, 1, 'k', 32}, h32...), append([]byte{32}, h32...)...), // legacy inner
+		append(append([]byte{2, 4, 6, 1, 'k', 32}, h32...), append([]byte{32}, h32...)...),                             // legacy inner
 		append(append(append([]byte{2, 4, 1, 'k', 32}, h32...), 6, 32), append(h32, append([]byte{32}, h32...)...)...), // inner with two legacy children (mode 3)
-		append([]byte{'s'}, 0, 0, 0, 0, 0, 0, 0, 2), // old-style reference root
+		append([]byte{'s'}, 0, 0, 0, 0, 0, 0, 0, 2),                                                                    // old-style reference root
 	)
 	perValid := 60
 	cap := 6000
